@@ -389,93 +389,7 @@ func c16(r *core.Run) {
 	}
 
 	// ---- O1 --------------------------------------------------------------
-	{
-		reqTypes := map[string]bool{"Request": true, "queryRequest": true, "getRequest": true, "resource": true}
-		// fresh: the address denotes memory allocated in this function
-		var fresh func(fn *ssa.Function, addr ssa.Value, d int) (bool, string)
-		fresh = func(fn *ssa.Function, addr ssa.Value, d int) (bool, string) {
-			if d > 8 {
-				return false, "too deep"
-			}
-			switch x := addr.(type) {
-			case *ssa.Alloc:
-				return true, ""
-			case *ssa.FieldAddr:
-				return fresh(fn, x.X, d+1)
-			case *ssa.IndexAddr:
-				return fresh(fn, x.X, d+1)
-			case *ssa.UnOp:
-				if x.Op != token.MUL {
-					return false, valDesc(x)
-				}
-				// a pointer loaded from a field of a fresh object: every value stored there must be fresh
-				fa, ok := x.X.(*ssa.FieldAddr)
-				if !ok {
-					return false, "pointer loaded from " + valDesc(x.X)
-				}
-				if ok, why := fresh(fn, fa.X, d+1); !ok {
-					return false, why
-				}
-				n := 0
-				for _, b := range fn.Blocks {
-					for _, in := range b.Instrs {
-						st, ok := in.(*ssa.Store)
-						if !ok {
-							continue
-						}
-						fb, ok := st.Addr.(*ssa.FieldAddr)
-						if !ok || fb.X != fa.X || fb.Field != fa.Field {
-							continue
-						}
-						n++
-						if ok, why := fresh(fn, st.Val, d+1); !ok {
-							return false, "the pointer member is set to " + valDesc(st.Val) + " (" + why + ")"
-						}
-					}
-				}
-				if n == 0 {
-					return false, "pointer member never set here"
-				}
-				return true, ""
-			case *ssa.Parameter, *ssa.FreeVar:
-				return false, "memory of " + valDesc(x)
-			}
-			return false, valDesc(addr)
-		}
-		nChecked := 0
-		for _, fn := range root {
-			builds := false
-			for _, b := range fn.Blocks {
-				for _, in := range b.Instrs {
-					if al, ok := in.(*ssa.Alloc); ok && al.Heap {
-						tn := core.TypeName(al.Type())
-						if tn == "Request" || tn == "queryRequest" || tn == "getRequest" {
-							builds = true
-						}
-					}
-				}
-			}
-			if !builds {
-				continue
-			}
-			for _, b := range fn.Blocks {
-				for _, in := range b.Instrs {
-					st, ok := in.(*ssa.Store)
-					if !ok {
-						continue
-					}
-					f, ok := core.FieldOf(st.Addr)
-					if !ok || !reqTypes[f.Struct] {
-						continue
-					}
-					nChecked++
-					isFresh, why := fresh(fn, st.Addr, 0)
-					r.Check(isFresh, "O1", core.FuncName(fn), "store("+f.String()+")-targets-request-owned-memory", p.InstrPos(st), "written into the request object allocated here", "this store goes through a pointer into a longer-lived object ("+why+"): concurrent requests of the same query event / Parallel resource write the same memory without synchronisation (data race; a callback can see another request's data)")
-				}
-			}
-		}
-		r.Analysed["request_field_stores_checked"] = nChecked
-	}
+	c16RequestsOwnTheirMemory(r, "O1")
 
 	// ---- O2 (shared with C06) ------------------------------------------------
 	c06PureLookup(r, "O2")
@@ -748,4 +662,129 @@ func c16NoForeignAppend(r *core.Run, rule string, rels []string, what string) {
 	if bad == 0 {
 		r.OK(rule, what, "no-append-onto-a-shared-field-slice", "-", fmt.Sprintf("%d append calls scanned: every append onto a field's slice stores its result back into that field", n))
 	}
+}
+
+// derefNamed: the named type of t or of what t points to.
+func derefNamed(t types.Type) (*types.Named, bool) {
+	if pt, ok := t.Underlying().(*types.Pointer); ok {
+		t = pt.Elem()
+	}
+	nt, ok := t.(*types.Named)
+	return nt, ok
+}
+
+// c16RequestsOwnTheirMemory is C16.O1 (shared as C18.V13): request objects own
+// their memory, and per-request code neither writes members of the longer-lived
+// object it was handed nor starts a request on a re-slice of a buffer kept there.
+func c16RequestsOwnTheirMemory(r *core.Run, rule string) {
+	p := r.P
+	root := p.FuncsOfPkg("")
+	reqTypes := map[string]bool{"Request": true, "queryRequest": true, "getRequest": true, "resource": true}
+	// fresh: the address denotes memory allocated in this function
+	var fresh func(fn *ssa.Function, addr ssa.Value, d int) (bool, string)
+	fresh = func(fn *ssa.Function, addr ssa.Value, d int) (bool, string) {
+		if d > 8 {
+			return false, "too deep"
+		}
+		switch x := addr.(type) {
+		case *ssa.Alloc:
+			return true, ""
+		case *ssa.FieldAddr:
+			return fresh(fn, x.X, d+1)
+		case *ssa.IndexAddr:
+			return fresh(fn, x.X, d+1)
+		case *ssa.UnOp:
+			if x.Op != token.MUL {
+				return false, valDesc(x)
+			}
+			// a pointer loaded from a field of a fresh object: every value stored there must be fresh
+			fa, ok := x.X.(*ssa.FieldAddr)
+			if !ok {
+				return false, "pointer loaded from " + valDesc(x.X)
+			}
+			if ok, why := fresh(fn, fa.X, d+1); !ok {
+				return false, why
+			}
+			n := 0
+			for _, b := range fn.Blocks {
+				for _, in := range b.Instrs {
+					st, ok := in.(*ssa.Store)
+					if !ok {
+						continue
+					}
+					fb, ok := st.Addr.(*ssa.FieldAddr)
+					if !ok || fb.X != fa.X || fb.Field != fa.Field {
+						continue
+					}
+					n++
+					if ok, why := fresh(fn, st.Val, d+1); !ok {
+						return false, "the pointer member is set to " + valDesc(st.Val) + " (" + why + ")"
+					}
+				}
+			}
+			if n == 0 {
+				return false, "pointer member never set here"
+			}
+			return true, ""
+		case *ssa.Parameter, *ssa.FreeVar:
+			return false, "memory of " + valDesc(x)
+		}
+		return false, valDesc(addr)
+	}
+	nChecked := 0
+	for _, fn := range root {
+		builds := false
+		for _, b := range fn.Blocks {
+			for _, in := range b.Instrs {
+				if al, ok := in.(*ssa.Alloc); ok && al.Heap {
+					tn := core.TypeName(al.Type())
+					if tn == "Request" || tn == "queryRequest" || tn == "getRequest" {
+						builds = true
+					}
+				}
+			}
+		}
+		if !builds {
+			continue
+		}
+		for _, b := range fn.Blocks {
+			for _, in := range b.Instrs {
+				st, ok := in.(*ssa.Store)
+				if !ok {
+					continue
+				}
+				f, ok := core.FieldOf(st.Addr)
+				if ok && !reqTypes[f.Struct] {
+					// per-request code writing a member of a longer-lived object of the package (the
+					// query event, the service, the mux) it was handed: a buffer or cache shared by all
+					// requests of that object
+					if fa, isFA := st.Addr.(*ssa.FieldAddr); isFA {
+						if isFresh, why := fresh(fn, fa.X, 0); !isFresh && strings.HasPrefix(why, "memory of") {
+							if nt, isN := derefNamed(fa.X.Type()); isN && nt.Obj().Pkg() != nil && nt.Obj().Pkg() == fn.Pkg.Pkg {
+								nChecked++
+								r.Bad(rule, core.FuncName(fn), "store("+f.String()+")-by-per-request-code", p.InstrPos(st), "the function that builds and runs a request stores into "+f.String()+", a member of an object that outlives the request ("+why+") and is shared by every request on it: with a Parallel resource (or any two workers) concurrent requests write and reuse the same memory - a response can carry another request's data")
+							}
+						}
+					}
+					continue
+				}
+				if !ok {
+					continue
+				}
+				// a request member initialised with a re-slice of a buffer kept in a longer-lived object
+				if sl, isSl := core.Strip(st.Val).(*ssa.Slice); isSl {
+					if lf, isLF := core.LoadedField(sl.X); isLF && !reqTypes[lf.Struct] {
+						nChecked++
+						r.Bad(rule, core.FuncName(fn), "store("+f.String()+")<-re-slice-of("+lf.String()+")", p.InstrPos(st), "the request's "+f.String()+" shares its backing array with "+lf.String()+", which every request of that object is handed: appends of concurrent requests overwrite each other")
+						continue
+					}
+				}
+				nChecked++
+				isFresh, why := fresh(fn, st.Addr, 0)
+				r.Check(isFresh, rule, core.FuncName(fn), "store("+f.String()+")-targets-request-owned-memory", p.InstrPos(st), "written into the request object allocated here", "this store goes through a pointer into a longer-lived object ("+why+"): concurrent requests of the same query event / Parallel resource write the same memory without synchronisation (data race; a callback can see another request's data)")
+			}
+		}
+	}
+	r.Analysed["request_field_stores_checked"] = nChecked
+
 }
